@@ -12,8 +12,8 @@ static int v_ctx_obj;
 #define V_MTU_FIXED 576
 #endif
 
-#ifdef V_SYM_SMALL_MTU
-#define V_FIX_MTU() do { g_cfg.mtu_fail = 0; } while (0)
+#if defined(V_SYM_SMALL_MTU) || defined(V_FULL_SYM_MTU)
+#define V_FIX_MTU() do { V_ASSUME(!g_cfg.mtu_fail); g_cfg.mtu_fail = 0; } while (0)
 #else
 #define V_FIX_MTU() do { V_ASSUME(g_cfg.mtu == V_MTU_FIXED && !g_cfg.mtu_fail); g_cfg.mtu = V_MTU_FIXED; g_cfg.mtu_fail = 0; } while (0)
 #endif
@@ -26,6 +26,12 @@ struct in_pq {
     uint8_t gj;
 };
 
+/* the received frame: an object of exactly MTU bytes */
+#ifdef V_FULL_SYM_MTU
+#define V_RX_FRAME(f) uint8_t *f = (uint8_t *)malloc(g_cfg.mtu); V_ASSUME(f != (uint8_t *)0)
+#else
+#define V_RX_FRAME(f) V_EXACT_OBJECT(f, in.frame, V_MTU_FIXED)
+#endif
 #define PQ_PROLOGUE(FN) \
     V_INPUT(FN, struct in_pq, in); \
     V_ENV_MTU(in.cfg); \
@@ -37,7 +43,7 @@ struct in_pq {
     V_ASSUME(ST_WF(&st)); \
     V_ASSUME(in.allocs0 < 1000 && in.tx0 < 1000); \
     g_led.allocs = in.allocs0; g_led.tx_attempts = in.tx0; g_req.tx_base = in.tx0; \
-    V_EXACT_OBJECT(f, in.frame, V_MTU_FIXED); \
+    V_RX_FRAME(f); \
     probe_t *head0 = st.see_list; uint32_t count0 = st.see_list_count, live0 = g_led.live; \
     lltd_iface_state o = st; (void)o
 
